@@ -1314,7 +1314,6 @@ func mergeBlocksOf(b *ssa.BasicBlock, vals ...ssa.Value) []*ssa.BasicBlock {
 	return out
 }
 
-
 // isReflectKindValue: v is the result of reflect.Value.Kind() / reflect.Type.Kind().
 func isReflectKindValue(v ssa.Value) bool {
 	call, ok := v.(*ssa.Call)
